@@ -84,6 +84,34 @@ theorem ring_sorted {α : Type} [RingArith α] (hashOf : Nat → Nat → Nat) (e
     (newRing (α := α) hashOf eps minSize maxSize).Pairwise (fun a b => a.hash ≤ b.hash) :=
   sortByHash_sorted _
 
+/-- The balancer's ring follows the CURRENT endpoints and bounds: after any sequence of
+    resolver / LB-config updates (each with at least one endpoint) the ring it holds is the one
+    newRing (`F`, any function of the endpoint set and the bounds) builds for the last update —
+    whether that update changed the endpoints, only min_ring_size, only max_ring_size, or nothing. -/
+theorem balancer_ring_follows_current_config (F : List Endpoint → ℕ → ℕ → List RingEntry)
+    (hF : ∀ e1 e2 a b, sortByKey e1 = sortByKey e2 → F e1 a b = F e2 a b)
+    (us : List (List Endpoint × ℕ × ℕ)) (hne : ∀ u ∈ us, u.1 ≠ [])
+    (eps : List Endpoint) (he : eps ≠ []) (a b : ℕ) :
+    let step := fun (s : BalState) (u : List Endpoint × ℕ × ℕ) => balUpdate s u.1 u.2.1 u.2.2 (F u.1 u.2.1 u.2.2)
+    (step (us.foldl step {}) (eps, a, b)).ring = F eps a b := by
+  intro step
+  have hinv : ∀ (us : List (List Endpoint × ℕ × ℕ)) (s : BalState), BalInv F s → (∀ u ∈ us, u.1 ≠ []) →
+      BalInv F (us.foldl step s) := by
+    intro us
+    induction us with
+    | nil => intro s h _; exact h
+    | cons u us ih =>
+      intro s h hn
+      apply ih _ _ (fun u' hu' => hn u' (List.mem_cons_of_mem _ hu'))
+      obtain ⟨h1, h2, h3⟩ := balUpdate_inv F hF s h u.1 (hn u List.mem_cons_self) u.2.1 u.2.2
+      intro a' b' hc _
+      show (balUpdate s u.1 u.2.1 u.2.2 (F u.1 u.2.1 u.2.2)).ring = F (balUpdate s u.1 u.2.1 u.2.2 (F u.1 u.2.1 u.2.2)).eps a' b'
+      rw [h1] at hc
+      obtain ⟨rfl, rfl⟩ := Prod.mk.inj (Option.some.inj hc)
+      rw [h3, h2]
+  have h0 : BalInv F {} := by intro a b hc; cases hc
+  exact (balUpdate_inv F hF _ (hinv us {} h0 hne) eps he a b).2.2
+
 /-! ## 2. ring.pick / ring.next -/
 
 /-- `sort.Search` (literal port) on a monotone predicate: first index where it holds, n if none. -/
